@@ -251,6 +251,62 @@ def check_capacity_fn(mir_text, src):
                  holds=not viol and n > 0, witnesses=viol[:2], vacuous=(n < 2))]
 
 
+def check_mode_accessors(mir_text, src):
+    """L4: the mode accessors are the stated functions of Memory.flag (whose value per constructor L1/L2 and R3/R4 decide):
+    is_map = flag.contains(MMAP), is_ondisk = flag.contains(ON_DISK), is_inmemory = !is_ondisk,
+    is_map_anon = is_map && !is_ondisk, is_map_file = is_map && is_ondisk"""
+    viol = []
+    total = 0
+    fname0 = None
+    for nm in ("is_map", "is_ondisk", "is_inmemory", "is_map_anon", "is_map_file"):
+        def init(ex, prog, fr):
+            fr.locals[1] = Sym("self", "&Self")
+            return {}
+        try:
+            prog, ex, ends, ctx, fname = explore(mir_text, src, r"^allocator::Allocator::%s$" % nm, init)
+        except Unsupported as u:
+            viol.append({"function": nm, "why": "not explored: %s" % u})
+            continue
+        fname0 = fname0 or fname
+        for e in ends:
+            if e.kind != "done":
+                if e.kind == "panic":
+                    viol.append({"function": nm, "why": "a mode accessor can panic"})
+                continue
+            total += 1
+            effs = e.stack[0].locals.get("EFF", ())
+            res = e.info if isinstance(e.info, z3.BoolRef) else z3.BoolVal(bool(e.info))
+            if nm in ("is_map", "is_ondisk"):
+                want_flag = "MMAP" if nm == "is_map" else "ON_DISK"
+                cs = [x for x in effs if x["func"].endswith("::contains") and len(x["args"]) == 2 and getattr(x["args"][1], "tag", "").endswith("MemoryFlags::" + want_flag)]
+                asr = [x for x in effs if "AsRef<memory::Memory" in x["func"]]
+                ok = len(cs) == 1 and bool(asr) and prove(ex, e.guard, [], res == cs[0]["result"])[0]
+                if not ok:
+                    viol.append({"function": nm, "why": "%s is not flag.contains(%s) of the arena's Memory" % (nm, want_flag)})
+                continue
+            m_ = [x["result"] for x in effs if x["func"].endswith("::is_map")]
+            d_ = [x["result"] for x in effs if x["func"].endswith("::is_ondisk")]
+            # a path that returned early did so because of the value it had already obtained: complete the formula with that guard
+            im = m_[0] if m_ else None
+            io = d_[0] if d_ else None
+            if nm == "is_inmemory":
+                ok = io is not None and prove(ex, e.guard, [], res == z3.Not(io))[0]
+            else:
+                if im is None:
+                    ok = False
+                elif io is None:
+                    # short-circuit path: only possible when is_map is false, result false
+                    ok = prove(ex, e.guard, [], z3.And(z3.Not(im), z3.Not(res)))[0]
+                else:
+                    want = z3.And(im, z3.Not(io)) if nm == "is_map_anon" else z3.And(im, io)
+                    ok = prove(ex, e.guard, [], res == want)[0]
+            if not ok:
+                viol.append({"function": nm, "why": "%s is not the stated combination of is_map / is_ondisk" % nm})
+    return [dict(function=fname0 or "allocator::Allocator::is_*", paths=total, ok_paths=total, id="L4",
+                 text="mode accessors: is_map = flag.contains(MMAP), is_ondisk = flag.contains(ON_DISK), is_inmemory = !is_ondisk, is_map_anon = is_map && !is_ondisk, is_map_file = is_map && is_ondisk",
+                 holds=not viol, witnesses=viol[:4], vacuous=(total < 7))]
+
+
 def main():
     mir_text = open(sys.argv[1]).read()
     mir_text = re.sub(r"// MIR FOR CTFE\nfn .*?^\}\n", "", mir_text, flags=re.S | re.M)
@@ -260,6 +316,7 @@ def main():
     try:
         out["obligations"] += check_data_offset_in(mir_text, src)
         out["obligations"] += check_capacity_fn(mir_text, src)
+        out["obligations"] += check_mode_accessors(mir_text, src)
         out["obligations"] += check_constructor(mir_text, src, "map_mut_in (new file)", r"::map_mut_in$", "L1", True)
         out["obligations"] += check_constructor(mir_text, src, "map_anon", r"^memory::.*::map_anon$", "L2", False)
     except Unsupported as e:
